@@ -12,7 +12,7 @@
 (***************************************************************************)
 EXTENDS StateRes
 
-CONSTANTS Start,      \* which creation prefix the room starts from (1 or 2)
+CONSTANTS Start,      \* which creation prefix the room starts from (1..5; 4 and 5: the power levels set users_default)
           Ver,        \* the room version
           MaxFree,    \* number of events after the creation prefix
           ForkFrom,   \* smallest event id that may be used as a prev event of a new event
@@ -38,7 +38,7 @@ IdRank(i) == IF IdDesc THEN 100 - i ELSE i
 Ev(type, sender, skey, membership, plu, jr, prev, auth, depth, ts, i) ==
     [type |-> type, sender |-> sender, skey |-> skey, membership |-> membership, plu |-> plu, jr |-> jr,
      prev |-> prev, auth |-> auth, depth |-> depth, ts |-> ts, idr |-> IdRank(i), sha |-> IdRank(i), rejected |-> FALSE,
-     addl |-> {}]
+     addl |-> {}, pud |-> Absent]
 
 InitPL == IF PrivilegedCreators(Ver) THEN NoUsers
           ELSE [u \in Users |-> IF u = "creator" THEN 4 ELSE Absent]
@@ -56,6 +56,17 @@ Prefix ==
 Prefix2 ==
     Prefix \o
     << Ev("pl", "creator", "", "", [InitPL EXCEPT !["bob"] = 3], "", {6}, {1, 2, 3}, 7, 1, 7),
+       Ev("member", "carol", "carol", "join", NoUsers, "", {7}, {1, 4, 7}, 8, 1, 8) >>
+
+\* starting points 4 and 5: as the second, but the power-levels event also sets users_default - to 50 (Start 4)
+\* or 100 (Start 5).  alice and carol are not listed in `users` and hold their level through users_default only, bob
+\* (listed, 50) and - before privileged creators - the creator (listed, 100) hold theirs through an entry: the
+\* effective level Eff(users[u], users_default) is what the auth rules and the power ordering (R2) read.  In these
+\* rooms users_default is also a free dimension (kind "pld" below).
+PrefixPud == IF Start = 5 THEN 4 ELSE R50
+Prefix4 ==
+    Prefix \o
+    << [Ev("pl", "creator", "", "", [InitPL EXCEPT !["bob"] = 3], "", {6}, {1, 2, 3}, 7, 1, 7) EXCEPT !.pud = PrefixPud],
        Ev("member", "carol", "carol", "join", NoUsers, "", {7}, {1, 4, 7}, 8, 1, 8) >>
 
 \* a third starting point: a side branch with its own power-levels event (7) and a topic authorised by it (8),
@@ -82,13 +93,16 @@ InitRoom ==
            /\ after = [i \in 1..8 |-> IF i <= 6 THEN 1..i ELSE IF i = 7 THEN {1, 2, 4, 5, 6, 7} ELSE {1, 2, 4, 5, 6, 7, 8}]
            /\ last = 0
         \/ /\ Start = 3 /\ E = Prefix3.E /\ after = Prefix3.after /\ last = 0
+        \/ /\ Start \in {4, 5} /\ E = Prefix4
+           /\ after = [i \in 1..8 |-> IF i <= 6 THEN 1..i ELSE IF i = 7 THEN {1, 2, 4, 5, 6, 7} ELSE {1, 2, 4, 5, 6, 7, 8}]
+           /\ last = 0
 
 Init == /\ before = {}
         /\ nbad = 0
         /\ InitRoom
 
 
-Base == CASE Start = 1 -> 6 [] Start = 2 -> 8 [] OTHER -> 10
+Base == CASE Start = 1 -> 6 [] Start \in {2, 4, 5} -> 8 [] OTHER -> 10
 
 \* ancestors through prev_events
 RECURSIVE PrevReach(_, _, _)
@@ -108,16 +122,21 @@ StateAt(prevs) ==
 \* current power-levels content in a state
 PLIn(S) == LET pl == ForKey(E, S, <<"pl", "">>) IN IF pl = {} THEN EmptyPL ELSE PLCOf(E, CHOOSE p \in pl : TRUE)
 
-Kinds == {"join", "leave", "ban", "kick", "invite", "pl", "jr", "topic"}
+\* "pl" changes one entry of the users map (users_default is kept), "pld" changes users_default (the users map is
+\* kept); "pld" exists in the rooms whose creation prefix sets users_default (rooms of the other prefixes are shared
+\* with models whose concretisers have no such dimension)
+Kinds == {"join", "leave", "ban", "kick", "invite", "pl", "jr", "topic"} \cup (IF Start \in {4, 5} THEN {"pld"} ELSE {})
 PLTargets == {"alice", "bob", "carol"}
 PLLevels == {1, 3, 4}
+PudLevels == {Absent, R50, 4}
 
 \* Send: user u adds one event on top of the antichain prevs, S being the state resolved there
 MemIn(S, u) == LET m == ForKey(E, S, <<"member", u>>) IN IF m = {} THEN "absent" ELSE E[CHOOSE x \in m : TRUE].membership
 LevelIn(S, u) == IF PrivilegedCreators(Ver) /\ u \in ({"creator"} \cup Addl) THEN Inf
                  ELSE Eff(PLIn(S).users[u], Thr(PLIn(S), "users_default"))
 
-\* cheap necessary conditions of the auth rules (thresholds keep their defaults in this model); they only
+\* cheap necessary conditions of the auth rules (all thresholds but users_default keep their defaults in this model:
+\* a power event needs the effective level 50, from an entry or from users_default); they only
 \* prune the enumeration - the real guard is AllowedAt below
 Plausible(S, u, kind) ==
     CASE kind = "join" -> MemIn(S, u) # "ban"
@@ -134,7 +153,9 @@ Send(u, kind, t, lvl, rule, prevs, ts, S) ==
                [] kind = "ban" -> Ev("member", u, t, "ban", NoUsers, "", prevs, {}, depth, ts, i)
                [] kind = "kick" -> Ev("member", u, t, "leave", NoUsers, "", prevs, {}, depth, ts, i)
                [] kind = "invite" -> Ev("member", u, t, "invite", NoUsers, "", prevs, {}, depth, ts, i)
-               [] kind = "pl" -> Ev("pl", u, "", "", [PLIn(S).users EXCEPT ![t] = lvl], "", prevs, {}, depth, ts, i)
+               [] kind = "pl" -> [Ev("pl", u, "", "", [PLIn(S).users EXCEPT ![t] = lvl], "", prevs, {}, depth, ts, i)
+                                    EXCEPT !.pud = PLIn(S).users_default]
+               [] kind = "pld" -> [Ev("pl", u, "", "", PLIn(S).users, "", prevs, {}, depth, ts, i) EXCEPT !.pud = lvl]
                [] kind = "jr" -> Ev("jr", u, "", "", NoUsers, rule, prevs, {}, depth, ts, i)
                [] OTHER -> Ev("topic", u, "", "", NoUsers, "", prevs, {}, depth, ts, i)
            E1 == Append(E, draft)
@@ -142,6 +163,7 @@ Send(u, kind, t, lvl, rule, prevs, ts, S) ==
            E2 == [E1 EXCEPT ![i].auth = auth]
        IN /\ (kind \in {"ban", "kick", "invite"} => t # u)
           /\ (kind = "pl" => PLIn(S).users[t] # lvl)                  \* a real change
+          /\ (kind = "pld" => PLIn(S).users_default # lvl)
           /\ (kind = "jr" => ForKey(E, S, <<"jr", "">>) = {} \/ E[CHOOSE j \in ForKey(E, S, <<"jr", "">>) : TRUE].jr # rule)
           \* honest servers only send what their state allows ("= TRUE": evaluate as a value; left as an action
           \* formula TLC would branch on every disjunction inside Allowed)
@@ -167,7 +189,7 @@ Next ==
             /\ Plausible(S, u, kind) = TRUE
             /\ \E ts \in TSChoices,
                   t \in (IF kind \in {"ban", "kick", "invite"} THEN Users ELSE IF kind = "pl" THEN PLTargets ELSE {u}),
-                  lvl \in (IF kind = "pl" THEN PLLevels ELSE {0}),
+                  lvl \in (IF kind = "pl" THEN PLLevels ELSE IF kind = "pld" THEN PudLevels ELSE {0}),
                   rule \in (IF kind = "jr" THEN {"public", "invite"} ELSE {""}) :
                   Send(u, kind, t, lvl, rule, prevs, ts, S)
 
@@ -195,6 +217,13 @@ PairOK(a, b, R) ==
 \* top of the state it was sent on) satisfies the no-escalation invariant
 HistoryNoEsc == (last # 0 /\ E[last].type = "pl" /\ AllowedAt(E, Ver, E[last].auth, last))
                    => NoEsc(Ver, StOf(E, before), EvOf(E, last))
+
+\* R2 on honest events: the power the ordering reads from a power event's own auth events is the effective level its
+\* sender had in the state the event was sent on (an entry of `users`, or users_default), and with the thresholds at
+\* their defaults that is at least 50
+PowerSenderOK == (last # 0 /\ IsControl(E, last) /\ AllowedAt(E, Ver, E[last].auth, last))
+                    => /\ SenderPower(E, Ver, last) = LevelIn(before, E[last].sender)
+                       /\ SenderPower(E, Ver, last) >= R50
 
 ResolutionOK == \A p \in ForkPairs : PairOK(p[1], p[2], Resolve(E, Ver, <<after[p[1]], after[p[2]]>>))
 =============================================================================
